@@ -246,7 +246,14 @@ func (st *StateTransition) TransitionDb() (*core.ExecutionResult, error) {
 
 	// Set up the initial access list.
 	if rules.IsBerlin {
-		activePrecompiles := append(corevm.ActivePrecompiles(rules), st.evm.GetCustomPrecompiledContractsAddress()...)
+		// corevm.ActivePrecompiles returns a package-level slice that has spare capacity and is shared by every
+		// execution in the process (block execution, CheckTx, queries): appending to it in place would write the
+		// custom addresses into that shared array, a data race between concurrent executions. Build a fresh slice.
+		stdPrecompiles := corevm.ActivePrecompiles(rules)
+		customPrecompiles := st.evm.GetCustomPrecompiledContractsAddress()
+		activePrecompiles := make([]common.Address, 0, len(stdPrecompiles)+len(customPrecompiles))
+		activePrecompiles = append(activePrecompiles, stdPrecompiles...)
+		activePrecompiles = append(activePrecompiles, customPrecompiles...)
 		st.state.PrepareAccessList(msg.From(), msg.To(), activePrecompiles, msg.AccessList())
 	}
 	var (
